@@ -165,6 +165,8 @@ def build(term, dtype, leaves=None, requires_grad=False, path=(), leafmap=None):
         return O.KernelLinearOperator(
             x1, x2, covar_func=_kernel_linear if ks[0] == 0 else _kernel_quad, c=c, num_nonbatch_dimensions={"c": 0}
         )
+    if cls == "InterpI32":
+        return O.InterpolatedLinearOperator(S(0), L(0).to(torch.int32), F(1), L(2).to(torch.int32), F(3))
     if cls == "InterpLeft":
         return O.InterpolatedLinearOperator(S(0), L(0), F(1))
     if cls == "KernelM":
